@@ -346,7 +346,11 @@ func (r *Runner) Solve(vc *VC, o *Obl, idx int) *Result {
 				return
 			}
 			t0 := time.Now()
-			argv := s.argv(file, r.timeout)
+			to := r.timeout
+			if o.ExpectSat && to > 3 {
+				to = 3
+			}
+			argv := s.argv(file, to)
 			cmd := exec.CommandContext(ctx, argv[0], argv[1:]...)
 			var out bytes.Buffer
 			cmd.Stdout = &out
